@@ -56,7 +56,49 @@ func parallel(n int, fn func(i int)) {
 // verdict when it was raised by the harness itself.
 var CurrentRun *evid.Run
 
+// caseOf: goroutine id -> index of the case it is running (context for violations raised from hooks).
+var caseOf sync.Map
+
+func goid() string {
+	var b [64]byte
+	f := strings.Fields(string(b[:runtime.Stack(b[:], false)]))
+	if len(f) > 1 {
+		return f[1]
+	}
+	return "?"
+}
+
+// InstallObserveHook: for the properties that speak about the CONTENT of what a log hands out, every
+// observation in which an accessor returns, for a hash the log holds, an object differing from the held one
+// is a violation (an unverified look-alike got in).
+func InstallObserveHook(run *evid.Run) {
+	switch run.Prop {
+	case "C01", "C03", "C05", "C06", "C09":
+	default:
+		return
+	}
+	hx.OnObserve = func(o *hx.Obs) {
+		if len(o.Differ) == 0 {
+			return
+		}
+		c, _ := caseOf.Load(goid())
+		st := string(debug.Stack())
+		var frames []string
+		for _, l := range strings.Split(st, "\n") {
+			if strings.HasPrefix(l, "verifharness/mon.") {
+				frames = append(frames, l)
+			}
+		}
+		run.Violate(run.Prop+"/look-alike-handed-out", det("accessor", strings.SplitN(o.Differ[0], "(", 2)[0]),
+			map[string]any{"case": c, "log": o.ID, "differ": o.Differ, "observed_in": frames},
+			"a log hands out an object that differs from the entry it holds under that hash (never verified): %s", o.Differ[0])
+	}
+}
+
 func guard(i int, fn func(i int)) {
+	g := goid()
+	caseOf.Store(g, i)
+	defer caseOf.Delete(g)
 	defer func() {
 		p := recover()
 		if p == nil {
@@ -126,3 +168,10 @@ func envInt(name string, def int) int {
 
 func writeFile(p string, b []byte) error { return os.WriteFile(p, b, 0o644) }
 func readFile(p string) ([]byte, error)  { return os.ReadFile(p) }
+
+func countRefused(run *evid.Run, s hx.Step) {
+	run.Count("refused_operations", 1)
+	if s.Op == "joinimpostor" {
+		run.Count("merges_offering_a_same_hash_look_alike_of_a_held_entry", 1)
+	}
+}
